@@ -296,6 +296,8 @@ func dataModel(r *fw.Rand, i int) *model {
 				}
 			}
 			fmt.Fprintf(&b, "    !type Shared:\n        code <: string\n        label <: string\n        weight <: int\n        extra <: string?\n")
+			// a map type (json_map_key): several value fields, references among them
+			fmt.Fprintf(&b, "    !type Lookup%d [json_map_key=\"code\"]:\n        code <: string\n        first <: %s\n        second <: %s\n        price <: decimal\n        note <: string?\n        third <: Shared\n", ai, tw[4], tw[5])
 			fmt.Fprintf(&b, "    !enum %s:\n        ALPHA: 1\n        BRAVO: 2\n        CHARLIE: 3\n        DELTA: 4\n", tw[8])
 			fmt.Fprintf(&b, "    !alias %s:\n        sequence of %s\n", tw[9], tw[4])
 			fmt.Fprintf(&b, "    !alias %s:\n        string\n", tw[10])
